@@ -43,7 +43,8 @@ class Ids:
             return (c, int(k[1:]))
         t = (contract_spec, k)
         if t not in self.keys:
-            self.keys[t] = 100000 + len(self.keys)
+            # a name, not a counter: the same key has the same number in every run (replays of recorded histories)
+            self.keys[t] = 100000 + int(hashlib.sha1(("%s|%s" % t).encode()).hexdigest()[:9], 16)
         return (c, self.keys[t])
 
     def val(self, v):
@@ -52,7 +53,7 @@ class Ids:
         if isinstance(v, int):
             return v
         if v not in self.vals:
-            self.vals[v] = 10**9 + len(self.vals)
+            self.vals[v] = 10**12 + int(hashlib.sha1(str(v).encode()).hexdigest()[:9], 16)
         return self.vals[v]
 
 
@@ -292,10 +293,16 @@ class Shadow:
             self.nonce[a[0]] = int(a[4])
         for s in ob.get("state") or []:
             self.store[(s[0], s[1])] = s[3]
+        # a present key with a ZERO-LENGTH value is shown as absent by the raw dump: the operations that store one
+        # (and succeeded) say so (see Run.xcase)
+        for k, v in (getattr(self, "next_overrides", None) or {}).items():
+            self.store[k] = v
+        self.next_overrides = {}
 
     def copy(self):
         c = Shadow(0, "0")
         c.bal, c.nonce, c.store = dict(self.bal), dict(self.nonce), dict(self.store)
+        c.next_overrides = dict(getattr(self, "next_overrides", None) or {})
         return c
 
 
@@ -385,21 +392,48 @@ def op_store_get(ids, frm, k):
                 body=("get", store_key(ids, "store", k)), invalid=False, tag="store_get")
 
 
+EMPTY_VALUE = "h:empty"
+
+
+def kv_call(frm, method, *args):
+    return {"t": "bvm", "from": frm, "to": EMITTER, "m": method, "args": [["s", a] for a in args]}
+
+
 def op_register_interchain(ids, frm, chainsvc):
-    """InterchainManager.Register(chain:service): reads service-<id>, writes a fresh record when absent, succeeds"""
-    return dict(tx={"t": "bvm", "from": frm, "to": "c:interchain", "m": "Register", "args": [["s", chainsvc]]}, frm=frm,
-                body=("putabsent", ids.key("c:interchain", "service-1356:" + chainsvc), "OBS"), invalid=False, tag="register_interchain")
+    """put-if-absent of a record (InterchainManager.Register is callable by the service manager contract only since
+    22554672: the same ledger path - read the key, write it when absent, succeed - through the plugin contract)"""
+    return dict(tx=kv_call(frm, "Put", "service-" + chainsvc, "v7"), frm=frm,
+                body=("putabsent", ids.key(EMITTER, "service-" + chainsvc), 7), invalid=False, tag="register_interchain")
 
 
 def op_delete_interchain(ids, frm, chainsvc):
-    """InterchainManager.DeleteInterchain(full id): Stub.Delete of service-<id> (audit off: succeeds)"""
-    return dict(tx={"t": "bvm", "from": frm, "to": "c:interchain", "m": "DeleteInterchain", "args": [["s", "1356:" + chainsvc]]}, frm=frm,
-                body=("bvm", ("jd", ids.key("c:interchain", "service-1356:" + chainsvc), ("done",))), invalid=False, tag="delete_interchain")
+    """Stub.Delete of the record (always succeeds)"""
+    return dict(tx=kv_call(frm, "Del", "service-" + chainsvc), frm=frm,
+                body=("bvm", ("touch", acct_id(EMITTER), ("jd", ids.key(EMITTER, "service-" + chainsvc), ("done",)))), invalid=False, tag="delete_interchain")
 
 
 def op_get_interchain(ids, frm, chainsvc):
-    return dict(tx={"t": "bvm", "from": frm, "to": "c:interchain", "m": "GetInterchain", "args": [["s", "1356:" + chainsvc]]}, frm=frm,
-                body=("get", ids.key("c:interchain", "service-1356:" + chainsvc)), invalid=False, tag="get_interchain")
+    return dict(tx=kv_call(frm, "Has", "service-" + chainsvc), frm=frm,
+                body=("get", ids.key(EMITTER, "service-" + chainsvc)), invalid=False, tag="get_interchain")
+
+
+def op_kv(ids, frm, method, key, val=None):
+    """the plugin's key/value surface: Put (if absent) / Overwrite / SetFail (write, then fail) / Del / Has / PutEmpty
+    (a zero-length value under a key that is PRESENT: the raw dump shows such a key as absent, Has does not)"""
+    k = ids.key(EMITTER, key)
+    e = acct_id(EMITTER)
+    if method == "PutEmpty":
+        return dict(tx=kv_call(frm, "PutEmpty", key), frm=frm, body=("bvm", ("touch", e, ("jw", k, ids.val(EMPTY_VALUE), ("done",)))), invalid=False,
+                    tag="kv_put_empty", empty_key=(EMITTER, key))
+    if method == "Overwrite":
+        return dict(tx=kv_call(frm, "Overwrite", key, "v%d" % val), frm=frm, body=("bvm", ("touch", e, ("jw", k, val, ("done",)))), invalid=False, tag="kv_overwrite")
+    if method == "SetFail":
+        return dict(tx=kv_call(frm, "SetFail", key, "v%d" % val), frm=frm, body=("bvm", ("touch", e, ("jw", k, val, ("fail", False)))), invalid=False, tag="kv_set_fail")
+    if method == "Has":
+        return dict(tx=kv_call(frm, "Has", key), frm=frm, body=("get", k), invalid=False, tag="kv_has")
+    if method == "Del":
+        return dict(tx=kv_call(frm, "Del", key), frm=frm, body=("bvm", ("touch", e, ("jd", k, ("done",)))), invalid=False, tag="kv_del")
+    raise ValueError(method)
 
 
 def op_store_get_missing(frm, k):
@@ -691,6 +725,10 @@ class Run:
             if k in rev:
                 return ids.val(shadow.store.get(rev[k]))
             return None
+        sh.next_overrides = {}
+        for o, rc in zip(ops, ob["receipts"]):
+            if o.get("empty_key") and rc[0] == 0 and sh.store.get(o["empty_key"]) is not None:
+                sh.next_overrides[o["empty_key"]] = EMPTY_VALUE
         init_keys = [(k, stored(sh, k)) for k in keys]
         init_bals = [(acct_id(a), sh.bal.get(a, 0)) for a in accts]
         init_nonces = [(acct_id(a), sh.nonce.get(a, 0)) for a in accts]
